@@ -33,6 +33,21 @@ declare -A DEMO=(
  [C03b_signed_octal_variable]="-p yash-arith -p yash-semantics -E test(c03b)"
  [C04b_rfind_multibyte]="-p yash-fnmatch -p yash-semantics -E test(c04b)"
  [C05b_literal_backslash_arms_escape]="-p yash-semantics --test c05b_glob_escaped_backslash"
+ [C06b_nonascii_digit_param]="-p yash-syntax --test c06b_parser_totality"
+ [C07b_rtmax_offset]="-p yash-builtin --test c07b_trap_realtime_roundtrip"
+ [C08b_subshell_signal_to_group]="-p yash-semantics c08b"
+ [C09b_noclobber_fd_leak]="-p yash-semantics --test c09b_noclobber_fd_leak"
+ [C10b_trap_divert_overrides_abort]="-p yash-semantics --test c10b_errexit_vs_trap_divert"
+ [C11b_sigint_batch_drops_signal]="-p yash-semantics --test c11b_signal_batch_with_sigint"
+ [C12b_same_pid_insert]="-p yash-env --test c12b_pid_reuse"
+ [C13b_stopped_foreground_child]="-p yash-semantics --test c13b_stopped_foreground_child"
+ [C14b_all_newline_output]="-p yash-semantics --test c14b_command_subst_newlines"
+ [C15b_step_stops_at_finished_task]="-p yash-executor --test c15b_finished_task_in_queue"
+ [C16b_env_hidden_exported]="-p yash-builtin --test c16b_export_scope"
+ [C17b_tab_ending_alias]="-p yash-syntax -p yash-semantics -E binary(c17b_alias_tab_ending)|test(c17b)"
+ [C18b_parse_mode_hoisted]="-p yash-builtin --test c18b_option_change_takes_effect_on_next_line"
+ [C19b_stopped_killed_keeps_fds]="-p yash-builtin --test c19b_stopped_child_pipe_eof"
+ [C20b_double_separator]="-p yash-builtin --test c20b_separator_operand"
 )
 suite() { # runs the pinned suite in $WT, prints number of baseline tests missing
   (cd $WT && cargo nextest run --workspace --no-fail-fast --tool-config-file pb:/w/lib/nextest.toml --profile pb --test-threads 8 --offline >/dev/null 2>&1
